@@ -26,7 +26,8 @@ fn arg(rng: &mut Rng) -> Vec<u8> {
         4 => b"bin/foo ".to_vec(),
         5 => b"a  b\tc".to_vec(),
         6 => b"/opt/".to_vec(),
-        _ => (0..rng.range(1, 12)).map(|_| *rng.pick(b"abc/-.0123 =@%")).collect(),
+        _ => { let a: Vec<u8> = (0..rng.range(1, 12)).map(|_| *rng.pick(b"abc/-.0123 =@%")).collect();
+               let mut a = crate::dict::dictify_bytes(rng, &a, 6); a.retain(|c| *c != b'\n'); a }
     }
 }
 
@@ -39,6 +40,8 @@ pub fn line(rng: &mut Rng) -> Vec<u8> {
             else if rng.chance(1, 3) { l.push(*rng.pick(b"abcxyz0+")); }
             else { for _ in 0..rng.range(1, 20) { let c = rng.range(1, 255) as u8; if c != b'\n' { l.push(c); } } }
             if l.iter().all(|c| (*c as char).is_whitespace()) { l.push(b'f'); }
+            l = crate::dict::dictify_bytes(rng, &l, 12);
+            l.retain(|c| *c != b'\n');
         }
         4 => {}
         5 => l.extend_from_slice(rng.pick_str(&[" ", "\t", "  \t "]).as_bytes()),
@@ -61,7 +64,8 @@ pub fn line(rng: &mut Rng) -> Vec<u8> {
 pub fn good_line(rng: &mut Rng) -> Vec<u8> {
     let dir = |rng: &mut Rng| -> Vec<u8> { match rng.below(6) { 0 => b"/usr/pkg".to_vec(), 1 => b"/opt/".to_vec(), 2 => vec![b'/', 0xe9], 3 => vec![b'/', b'c', 0xe9, b'/'], 4 => "/d\u{e9}/".as_bytes().to_vec(), _ => b"rel/dir".to_vec() } };
     match rng.below(16) {
-        0..=4 => { let mut f: Vec<u8> = rng.pick_str(&["bin/a", "b", "man/man1/x.1", "lib/\u{e9}.so", "c"]).as_bytes().to_vec(); if rng.chance(1, 8) { f.push(0xf8); } f }
+        0..=4 => { let mut f: Vec<u8> = rng.pick_str(&["bin/a", "b", "man/man1/x.1", "lib/\u{e9}.so", "c"]).as_bytes().to_vec(); if rng.chance(1, 8) { f.push(0xf8); }
+                   let mut f = crate::dict::dictify_bytes(rng, &f, 25); f.retain(|c| *c != b'\n'); f }
         5..=6 => b"@ignore".to_vec(),
         7..=8 => { let mut l = b"@cwd ".to_vec(); l.extend_from_slice(&dir(rng)); l }
         9 => b"@exec echo %F".to_vec(),
